@@ -346,6 +346,41 @@ def run_cases(ctx, res, cases, monitors, scope, tag="gw"):
     return recs
 
 
+SMALL_ALPHABET = [
+    ("recv", "1;255;0;0;17;2.0"),        # node presentation
+    ("recv", "1;1;0;0;6;d"),             # child presentation
+    ("recv", "1;1;1;0;0;21.5"),          # value report
+    ("recv", "1;1;2;0;0;"),              # value request
+    ("recv", "1;255;3;0;0;77"),          # battery level
+    ("recv", "255;255;3;0;3;"),          # id request
+    ("recv", "1;255;3;0;22;5"),          # heartbeat response (wake-up announcement in 2.0 / 2.1)
+    ("recv", "1;255;3;0;32;500"),        # pre-sleep notification (wake-up announcement in 2.2)
+    ("setchild", 1, 1, 0, "7", None, None),
+    ("recv", "1;255;3;0;6;0"),           # config request
+    ("recv", "2;1;1;0;0;9"),             # report from an unknown node
+    ("recv", "1;1;1;0;0;x;y"),           # seven fields: malformed
+]
+
+
+def small_scope_cases(tag, maxlen, versions=VERSIONS, flavours=("async", "sync")):
+    """EVERY history of length <= maxlen over SMALL_ALPHABET (12 ops around one node and one child), per version and
+    flavour (threaded: each op followed by pumps until the queue is drained - 3 suffice for this alphabet)."""
+    import itertools
+    cases = []
+    for ver in versions:
+        for fl in flavours:
+            for n in range(1, maxlen + 1):
+                for k, word in enumerate(itertools.product(range(len(SMALL_ALPHABET)), repeat=n)):
+                    ops = []
+                    for a in word:
+                        ops.append(SMALL_ALPHABET[a])
+                        if fl == "sync":
+                            ops += [("pump",)] * 3
+                    cases.append({"id": f"{tag}-x-{ver}-{fl}-{n}-{k}", "ops": ops,
+                                  "cfg": {"ver": ver, "flavour": fl, "callback": True, "cb_raises": False, "mqtt": False}})
+    return cases
+
+
 def replay_case(ctx, case):
     c = case["case"] if "case" in case else case
     outs, viol, stats = impl_case(c)
